@@ -48,7 +48,11 @@ func RearrangeFuncs(src []byte, filename ...string) ([]byte, error) {
 	rest := stmts[first:]
 	for i, s := range rest {
 		if s.isFuncDecl() {
-			ret = append(ret, codeOf(src, base, i, rest)...)
+			code := codeOf(src, base, i, rest)
+			ret = append(ret, code...)
+			if n := len(code); n > 0 && code[n-1] != '\n' { // last chunk of a source without final newline
+				ret = append(ret, '\n')
+			}
 		}
 	}
 	for i, s := range rest {
